@@ -120,9 +120,13 @@ class Kit:
             m = np.concatenate([half, -half] + ([np.zeros((len(cond), 1))] if n_ch % 2 else []), axis=1)
             m = np.array([row[self.rng.permutation(n_ch)] for row in m])
             assert m.shape == (len(cond), n_ch) and not m.mean(axis=1).any()
+        od = {'cond': gen.wrap(cond, self.cont), 'fold': gen.wrap(fold, self.cont),
+              'lab': gen.wrap([f'k{c}' for c in cond], self.cont)}
+        if self.variant == 3:
+            # the user's own 'index' descriptor (original trial numbers): a name the library also likes to use
+            od['index'] = gen.wrap([100 + 3 * i for i in range(len(cond))], self.cont)
         return Dataset(m, descriptors={'subj': 's1', 'sess': 2},
-                       obs_descriptors={'cond': gen.wrap(cond, self.cont), 'fold': gen.wrap(fold, self.cont),
-                                        'lab': gen.wrap([f'k{c}' for c in cond], self.cont)},
+                       obs_descriptors=od,
                        channel_descriptors={'ch': gen.wrap([f'v{i}' for i in range(n_ch)], self.cont),
                                             'roi': gen.wrap([i % 2 for i in range(n_ch)], self.cont)})
 
@@ -229,9 +233,10 @@ def recipes():
     R['calc_rdm_poisson'] = lambda k: ([k.dataset()], {'descriptor': [None, 'cond', 'cond'][k.variant % 3]})
     R['calc_rdm_poisson_cv'] = lambda k: ([k.dataset()], {'descriptor': 'cond', 'cv_descriptor': 'fold'})
     R['calc_rdm_movie'] = lambda k: ([k.temporal()], {'descriptor': 'cond', 'method': 'euclidean'})
-    R['calc_rdm_unbalanced'] = lambda k: ([k.dataset()], {'descriptor': 'cond',
-                                                          'method': ['crossnobis', 'correlation', 'crossnobis'][k.variant % 3],
-                                                          # variant 0: cross-validated method without fold descriptor
+    R['calc_rdm_unbalanced'] = lambda k: ([k.dataset()], {'descriptor': 'cond' if k.variant != 3 else None,
+                                                          'method': ['crossnobis', 'correlation', 'crossnobis', 'euclidean'][k.variant % 4],
+                                                          # variant 0: cross-validated method without fold descriptor;
+                                                          # variant 3: no condition descriptor (one condition per row)
                                                           'cv_descriptor': 'fold' if k.variant % 3 == 2 else None})
     R['calc_one_similarity'] = lambda k: ([k.dataset().subset_obs('cond', 0), k.dataset().subset_obs('cond', 1),
                                            np.arange(3), np.arange(3)], {'method': 'euclidean'})
